@@ -2466,7 +2466,7 @@ def _coerce_to_stmts(
 
     elif code_cls in ASTS_LEAF_STMT_OR_STMTMOD:
         ast = Module(body=code.body if code_cls is Interactive else [code], type_ignores=[])
-        src = _fixing_unparse(code)
+        src = _fixing_unparse(ast)  # not `code` because ast.unparse() of an Interactive only gives the last statement
         lines = src.split('\n')
 
         return fst.FST(parse_stmts(src, parse_params), lines, None, parse_params=parse_params)
